@@ -176,9 +176,9 @@ def w_events(rng, task):
 
 
 def w_align(rng, task):
-    n = rng.randrange(2, 15)
+    n = rng.choice([1, 1, 2, 3, 5, 8, 14])
     ref = _times(rng, n)
-    if ref[-1] == ref[0]:
+    if n > 1 and ref[-1] == ref[0] and rng.random() < 0.7:
         ref[-1] = ref[0] + 1.0
     est = sorted(max(0.0, t + rng.gauss(0, 0.3)) for t in ref)
     return {"ref": _file(rng, "events", [(t,) for t in ref]), "est": _file(rng, "events", [(round(t, 3),) for t in est])}
@@ -367,6 +367,14 @@ def a_align(me, d):
         c.must_return = calls + [ev]
     elif c.verdict == INVALID:
         c.must_raise = [(n, t, c.why) for n, t in calls] + [(ev[0], ev[1], c.why)]
+    if c.verdict in (VALID, UNSPEC) and _finite(r, e) and r.size and r.size == e.size and not (
+            np.any(np.diff(r) < 0) or np.any(np.diff(e) < 0) or np.any(r < 0) or np.any(e < 0)):
+        # with an explicit total duration the segments are (0, t1) ... (tN, duration): a single or all-identical
+        # reference timestamp is then a valid degenerate annotation
+        dur = float(max(r.max(), e.max())) + 1.0
+        c.must_return = list(c.must_return) + [
+            ("alignment.percentage_correct_segments[duration]", lambda: al.percentage_correct_segments(r, e, duration=dur)),
+            ("alignment.evaluate[duration]", lambda: al.evaluate(r, e, duration=dur))]
     return c
 
 
